@@ -135,6 +135,7 @@ func (o *c13Obs) observe(w *gWorld, ev *gEvent) {
 
 func TestVerifC13(t *testing.T) {
 	r := verifkit.Start(t, "C13", "group")
+	gSeedSalt = r.Seed
 	defer r.Finish("real GroupCoordinator over the real InMemoryStore behind a recording store decorator, on synctest virtual time; PRNG op lists with hostile identities: heartbeat/sync/commit are sent with the member's own (id, generation), with any pair it was told earlier (before a rebalance, before it left, before it was expired), with another member's id, an invented id, an empty id, generation+-1. A request is 'not of the current generation' iff, in the group record stored before it, the group is absent, the id is not a member or the generation differs. Such a request must get a non-zero code; a commit among them must cause zero CommitConsumerOffset calls and the target offset must read back as the last commit answered 0 (every commit carries a unique offset). Generations in JoinGroup replies never decrease between two observations of the group being absent. A low-weight failover op is included; violations seen only after a failover get the class prefix after_failover:. non-trivial = case where a formerly valid identity was rejected and a current member's commit was accepted",
 		"group record in the store (written by the coordinator on every change) is the ground truth for 'current generation'", "a request by a listed member that carries the current generation but has not re-joined it yet is not judged (the statement does not say)")
 	p := gDefaultProfile
@@ -144,7 +145,7 @@ func TestVerifC13(t *testing.T) {
 	p.WSync = 14
 	p.WFailover = 2
 	p.WLeave = 6
-	n := r.N(1200, 40000)
+	n := r.N(800, 40000)
 	seen := func(w *gWorld, ev *gEvent) { r.Seen("group_states", w.stateSig(ev.After)) }
 	mk := func(w *gWorld) *c13Obs {
 		o := &c13Obs{r: r, model: map[c13Key]int64{}, removedBy: map[string]string{}}
